@@ -810,6 +810,7 @@ impl<'a> AnalyzeContext<'a, '_> {
         );
 
         let is_one_dimensional = indexes.len() == 1;
+        let is_discrete = matches!(elem_type.base().kind(), Type::Integer | Type::Enum(_));
         let is_character_elem = matches!(elem_type.base().kind(), Type::Enum(designators) if designators.iter().all(|des| matches!(des, Designator::Character(_))));
 
         [
@@ -842,6 +843,22 @@ impl<'a> AnalyzeContext<'a, '_> {
                         self.comparison(Operator::LTE, typ),
                         self.elementwise_min_or_maximum("MINIMUM", typ, *elem_type),
                         self.elementwise_min_or_maximum("MAXIMUM", typ, *elem_type),
+                    ]
+                    .into_iter(),
+                )
+            } else {
+                None
+            })
+            .into_iter()
+            .flatten(),
+        )
+        .chain(
+            (if is_one_dimensional && is_discrete {
+                // The minimum and maximum of two arrays are defined for discrete array types
+                Some(
+                    [
+                        self.min_or_maximum("MINIMUM", typ),
+                        self.min_or_maximum("MAXIMUM", typ),
                     ]
                     .into_iter(),
                 )
